@@ -97,6 +97,7 @@ type node struct {
 	sinks   map[string]bool   // direct sinks "pkg.Sel"
 	callees map[string]bool
 	dyn     int // calls through function-typed values the analysis cannot resolve
+	guarded bool // body starts with `if <..>.<sandbox flag> { return <error> }`
 	pos     token.Position
 }
 
@@ -372,13 +373,70 @@ func (p *pkgInfo) analyse(nd *node) {
 }
 
 // ---------------------------------------------------------------------------------------------
+// sandbox flag and guards
+
+// endsInField: x.f, x.y.f ...
+func endsInField(e ast.Expr, field string) bool {
+	s, ok := e.(*ast.SelectorExpr)
+	return ok && field != "" && s.Sel.Name == field
+}
+
+// errorOnly: the returned expressions do nothing but build an error / constant
+func errorOnly(r *ast.ReturnStmt) bool {
+	ok := true
+	for _, e := range r.Results {
+		ast.Inspect(e, func(n ast.Node) bool {
+			c, isCall := n.(*ast.CallExpr)
+			if !isCall {
+				return true
+			}
+			if s, isSel := c.Fun.(*ast.SelectorExpr); isSel {
+				if id, isId := s.X.(*ast.Ident); isId && id.Obj == nil &&
+					((id.Name == "fmt" && (s.Sel.Name == "Errorf" || s.Sel.Name == "Sprintf")) || (id.Name == "errors" && s.Sel.Name == "New")) {
+					return true
+				}
+			}
+			ok = false
+			return false
+		})
+	}
+	return ok
+}
+
+// markGuards: a node is guarded when its first statement is `if <..>.<flag> { return <error only> }`
+func (p *pkgInfo) markGuards(flag string) int {
+	n := 0
+	if flag == "" {
+		return 0
+	}
+	for _, nd := range p.nodes {
+		if len(nd.bodies) != 1 {
+			continue
+		}
+		blk, ok := nd.bodies[0].(*ast.BlockStmt)
+		if !ok || len(blk.List) == 0 {
+			continue
+		}
+		is, ok := blk.List[0].(*ast.IfStmt)
+		if !ok || is.Init != nil || is.Else != nil || !endsInField(is.Cond, flag) || len(is.Body.List) != 1 {
+			continue
+		}
+		if r, ok := is.Body.List[0].(*ast.ReturnStmt); ok && errorOnly(r) {
+			nd.guarded = true
+			n++
+		}
+	}
+	return n
+}
+
+// ---------------------------------------------------------------------------------------------
 // transitive effects with one witness path per (node, effect)
 
 type effInfo struct {
 	effs map[string]string // effect -> witness path "A -> B -> os.Open"
 }
 
-func (p *pkgInfo) effects() map[string]*effInfo {
+func (p *pkgInfo) effects(cutGuarded bool) map[string]*effInfo {
 	res := map[string]*effInfo{}
 	keys := make([]string, 0, len(p.nodes))
 	for k := range p.nodes {
@@ -390,6 +448,9 @@ func (p *pkgInfo) effects() map[string]*effInfo {
 		ei := &effInfo{effs: map[string]string{}}
 		var sinks []string
 		for s := range nd.sinks {
+			if cutGuarded && nd.guarded {
+				break
+			}
 			sinks = append(sinks, s)
 		}
 		sort.Strings(sinks)
@@ -417,6 +478,9 @@ func (p *pkgInfo) effects() map[string]*effInfo {
 			var cs []string
 			for c := range nd.callees {
 				cs = append(cs, c)
+			}
+			if cutGuarded && nd.guarded {
+				cs = nil
 			}
 			sort.Strings(cs)
 			for _, c := range cs {
@@ -473,6 +537,7 @@ type translator struct {
 	tables   map[string][]tableEntry // table function name -> entries (after merging)
 	tableSet map[string]bool
 	setup    map[string]bool // functions that (transitively) register names
+	flag     string          // field of Zlisp set to true by NewZlispSandbox ("" when there is none)
 	pseudoN  int
 }
 
@@ -730,6 +795,7 @@ type walker struct {
 	flags  map[string]bool   // cfg.<Field> values for ReplMain
 	depth  int
 	funcsP string // inside NewZlispWithFuncs: name of the table bound to parameter funcs
+	sandboxedCfg bool
 	ctor   string
 }
 
@@ -778,6 +844,9 @@ func (w *walker) scriptText(src, where string) {
 }
 
 func (w *walker) condValue(e ast.Expr) (bool, bool) {
+	if endsInField(e, w.t.flag) {
+		return w.sandboxedCfg, true // the interpreter's own sandbox flag
+	}
 	switch x := e.(type) {
 	case *ast.SelectorExpr:
 		if id, ok := x.X.(*ast.Ident); ok && id.Name == "cfg" {
@@ -904,19 +973,56 @@ func (w *walker) rangeStmt(x *ast.RangeStmt, where string) {
 		return
 	}
 	pos := w.t.p.fset.Position(x.Pos())
-	// pattern A (ImportBaseTypes): for _, e := range GoStructRegistry.<F> { env.AddGlobal(e.RegisteredName, e) }
-	if sel, ok := x.X.(*ast.SelectorExpr); ok && len(x.Body.List) == 1 {
-		if es, ok := x.Body.List[0].(*ast.ExprStmt); ok {
-			if c, ok := es.X.(*ast.CallExpr); ok {
-				if f, ok := c.Fun.(*ast.SelectorExpr); ok && f.Sel.Name == "AddGlobal" && len(c.Args) == 2 {
-					if id, ok := sel.X.(*ast.Ident); ok && id.Name == "GoStructRegistry" {
-						if v, ok := c.Args[1].(*ast.Ident); ok && x.Value != nil && v.Name == x.Value.(*ast.Ident).Name {
-							w.cfg.DynSources = append(w.cfg.DynSources, "GoStructRegistry."+sel.Sel.Name)
-							return
+	// pattern A (ImportBaseTypes): loops (possibly nested) over data taken from GoStructRegistry.<F> whose only
+	// registration is env.AddGlobal(e.RegisteredName, e): type values from a dynamic source
+	{
+		okA := true
+		nReg := 0
+		var sources []string
+		ast.Inspect(x, func(m ast.Node) bool {
+			switch y := m.(type) {
+			case *ast.SelectorExpr:
+				if id, ok := y.X.(*ast.Ident); ok && id.Name == "GoStructRegistry" {
+					sources = append(sources, "GoStructRegistry."+y.Sel.Name)
+				}
+			case *ast.CallExpr:
+				f, ok := y.Fun.(*ast.SelectorExpr)
+				if !ok {
+					if id, ok := y.Fun.(*ast.Ident); ok && w.t.setup[id.Name] {
+						okA = false
+					}
+					return true
+				}
+				if _, reg := registerCalls[f.Sel.Name]; reg {
+					nReg++
+					good := false
+					if f.Sel.Name == "AddGlobal" && len(y.Args) == 2 {
+						if ns, ok := y.Args[0].(*ast.SelectorExpr); ok && ns.Sel.Name == "RegisteredName" {
+							if a, ok := ns.X.(*ast.Ident); ok {
+								if v, ok := y.Args[1].(*ast.Ident); ok && v.Name == a.Name {
+									good = true
+								}
+							}
+						}
+					}
+					if !good {
+						okA = false
+					}
+				} else if evalCalls[f.Sel.Name] {
+					okA = false
+				} else {
+					for _, k := range w.t.p.methods[f.Sel.Name] {
+						if w.t.setup[k] {
+							okA = false
 						}
 					}
 				}
 			}
+			return true
+		})
+		if okA && nReg == 1 && len(sources) > 0 {
+			w.cfg.DynSources = append(w.cfg.DynSources, sources...)
+			return
 		}
 	}
 	// pattern B (NewZlispWithFuncs): for _, key := range funcNames { function := funcs[key]; sym := ..;
@@ -1323,18 +1429,91 @@ func main() {
 	}
 	t.computeSetup()
 
+	// the interpreter's sandbox flag: a field of the interpreter that NewZlispSandbox sets to true
+	if nd, ok := p.nodes["NewZlispSandbox"]; ok && nd.decl.Body != nil {
+		ast.Inspect(nd.decl.Body, func(n ast.Node) bool {
+			as, ok := n.(*ast.AssignStmt)
+			if !ok || len(as.Lhs) != 1 || len(as.Rhs) != 1 {
+				return true
+			}
+			sel, ok := as.Lhs[0].(*ast.SelectorExpr)
+			v, ok2 := as.Rhs[0].(*ast.Ident)
+			if ok && ok2 && v.Name == "true" && strings.Contains(strings.ToLower(sel.Sel.Name), "sandbox") {
+				if t.flag != "" && t.flag != sel.Sel.Name {
+					die("NewZlispSandbox sets two sandbox flags (%s, %s)", t.flag, sel.Sel.Name)
+				}
+				t.flag = sel.Sel.Name
+			}
+			return true
+		})
+	} else {
+		die("NewZlispSandbox not found")
+	}
+	if t.flag != "" {
+		// the flag must not be switched off anywhere in the package
+		for k, nd := range p.nodes {
+			for _, b := range nd.bodies {
+				ast.Inspect(b, func(n ast.Node) bool {
+					if as, ok := n.(*ast.AssignStmt); ok {
+						for i, l := range as.Lhs {
+							if endsInField(l, t.flag) && k != "NewZlispSandbox" {
+								// copying the flag (Clone / Duplicate) is fine; anything else is not understood
+								if i < len(as.Rhs) && endsInField(as.Rhs[i], t.flag) {
+									continue
+								}
+								die("%s assigns the sandbox flag %s", k, t.flag)
+							}
+						}
+					}
+					return true
+				})
+			}
+		}
+	}
+	if t.flag != "" {
+		// every function that makes another interpreter value (new(Zlisp), Zlisp{...}) must copy the flag
+		for k, nd := range p.nodes {
+			makes, copies := false, false
+			for _, b := range nd.bodies {
+				ast.Inspect(b, func(n ast.Node) bool {
+					switch x := n.(type) {
+					case *ast.CallExpr:
+						if id, ok := x.Fun.(*ast.Ident); ok && id.Name == "new" && len(x.Args) == 1 && typeName(x.Args[0]) == "Zlisp" {
+							makes = true
+						}
+					case *ast.CompositeLit:
+						if x.Type != nil && typeName(x.Type) == "Zlisp" {
+							makes = true
+						}
+					case *ast.AssignStmt:
+						for i, l := range x.Lhs {
+							if endsInField(l, t.flag) && i < len(x.Rhs) && endsInField(x.Rhs[i], t.flag) {
+								copies = true
+							}
+						}
+					}
+					return true
+				})
+			}
+			if makes && !copies && k != "NewZlispWithFuncs" {
+				die("%s makes a new interpreter value without copying the sandbox flag %s", k, t.flag)
+			}
+		}
+	}
+	guardedN := p.markGuards(t.flag)
+
 	// configurations
 	cfgs := map[string]*config{}
 	mk := func(name string, walk func(w *walker)) {
 		c := &config{Bindings: []binding{}, ScriptMacros: []scriptMacro{}, DynSources: []string{}}
-		w := &walker{t: t, cfg: c, strs: map[string]string{}}
+		w := &walker{t: t, cfg: c, strs: map[string]string{}, sandboxedCfg: name != "full"}
 		walk(w)
 		cfgs[name] = c
 	}
 	ctor := func(w *walker, name string) {
 		nd, ok := p.nodes[name]
-		if !ok || nd.decl.Body == nil || len(nd.decl.Body.List) != 1 {
-			die("%s: body is not a single statement", name)
+		if !ok || nd.decl.Body == nil || len(nd.decl.Body.List) == 0 || len(nd.decl.Body.List) > 6 {
+			die("%s: constructor body not understood", name)
 		}
 		w.ctor = name
 		w.stmts(nd.decl.Body.List, name)
@@ -1468,7 +1647,8 @@ func main() {
 		}
 	}
 	// the Generator methods were analysed before the special forms were carved out? no: specialForms ran first.
-	eff := p.effects()
+	eff := p.effects(false)
+	effS := p.effects(true) // for sandboxed configurations: functions guarded by the sandbox flag are cut
 
 	// function identifiers the tables use
 	used := map[string]bool{}
@@ -1548,6 +1728,39 @@ func main() {
 		w("\n")
 	}
 	w("].\n\n")
+	sameS := true
+	effListS := func(k string) []string {
+		var es []string
+		for _, e := range effectNames {
+			if _, ok := effS[k].effs[e]; ok {
+				es = append(es, e)
+			}
+		}
+		return es
+	}
+	for _, k := range usedKeys {
+		if strings.Join(effList(k), ",") != strings.Join(effListS(k), ",") {
+			sameS = false
+		}
+	}
+	w("(* the same for sandboxed configurations: %d function(s) start with a guard on the interpreter's sandbox flag %q and are cut *)\n", guardedN, t.flag)
+	if sameS {
+		w("Definition fn_effects_sandboxed : list (string * list effect) := fn_effects.\n\n")
+	} else {
+		w("Definition fn_effects_sandboxed : list (string * list effect) := [\n")
+		for i, k := range usedKeys {
+			var es []string
+			for _, e := range effListS(k) {
+				es = append(es, effCtor(e))
+			}
+			sep := ";"
+			if i == len(usedKeys)-1 {
+				sep = ""
+			}
+			w("  (%s, [%s])%s\n", coqStr(k), strings.Join(es, "; "), sep)
+		}
+		w("].\n\n")
+	}
 	w("Definition special_forms : list (string * string) := [\n")
 	for i, s := range specials {
 		sep := ";"
@@ -1601,13 +1814,22 @@ func main() {
 		jp = strings.TrimSuffix(strings.TrimSuffix(*outPath, ".tmp"), ".v") + ".json"
 	}
 	effJ := map[string][]string{}
+	effSJ := map[string][]string{}
 	pathJ := map[string]map[string]string{}
 	for _, k := range usedKeys {
 		effJ[k] = effList(k)
+		effSJ[k] = effListS(k)
 		if len(eff[k].effs) > 0 {
 			pathJ[k] = eff[k].effs
 		}
 	}
+	var guardedFns []string
+	for k, nd := range p.nodes {
+		if nd.guarded {
+			guardedFns = append(guardedFns, k)
+		}
+	}
+	sort.Strings(guardedFns)
 	var names []string
 	for n := range allNames {
 		names = append(names, n)
@@ -1628,7 +1850,8 @@ func main() {
 		}
 	}
 	js, _ := json.MarshalIndent(map[string]interface{}{
-		"special_forms": sfj, "special_form_sites": specials, "all_names": names, "configs": cfgs, "effects": effJ, "paths": pathJ,
+		"special_forms": sfj, "special_form_sites": specials, "all_names": names, "configs": cfgs, "effects": effJ, "effects_sandboxed": effSJ, "paths": pathJ,
+		"sandbox_flag": t.flag, "guarded_functions": guardedFns,
 		"implicit": implicit, "vm_core": vm, "tables": tablesJ, "unresolved_dynamic_calls": dyn, "functions_analysed": len(p.nodes),
 	}, "", " ")
 	if err := os.WriteFile(jp, js, 0644); err != nil {
